@@ -35,6 +35,9 @@ func govcX86Target(at uintptr, b []byte) (uintptr, string) {
 `
 
 func replayC15(o *Options, g *groupResult, model map[string]string) (string, string, bool) {
+	if g.witness == nil {
+		return "", "", false // no model: nothing to replay
+	}
 	fn := g.witness.Func
 	var body, pkg, pkgDir string
 	switch {
